@@ -83,6 +83,7 @@ var workloads = []workload{
 	{"proxy-random", 'J', 0, 1},
 	{"proxy-random_choose", 'K', 0, 1},
 	{"proxy-two-peers", 'L', 0, 1},
+	{"subroute-fallthrough-echo", 'M', 0, 1}, // nothing inside the subroute matches: routing goes on behind it
 	{"openvpn-auth-echo", 0, 0, 0},
 	{"tls-sni-a-echo", 1, 0, 0},       // TLS client hello with SNI a.example.com: terminated, echoed
 	{"tls-sni-b-take1-echo", 2, 1, 0}, // SNI b.example.com: terminated, first byte consumed, rest echoed
@@ -118,6 +119,10 @@ func buildServer(t hx.TB) (*layer4.Server, func()) {
 	}
 	routes = append(routes, rx.R{Match: sel('L', 1), Handle: []map[string]any{
 		rx.H("proxy", "upstreams", []map[string]any{{"dial": []string{echo2.Addr().String(), sink.Addr().String()}}})}})
+	routes = append(routes,
+		rx.R{Match: sel('M', 1), Handle: []map[string]any{rx.H("subroute", "matching_timeout", "2s", "routes", []rx.R{
+			{Match: []map[string]any{rx.M("verif_need", &rx.Need{N: 2, Pos: 1, Val: 0xFF})}, Handle: []map[string]any{rx.H("verif_term", "id", "NEVER2")}}})}},
+		rx.R{Match: sel('M', 1), Handle: []map[string]any{rx.H("echo")}})
 	routes = append(routes, rx.R{Match: []map[string]any{rx.M("openvpn", map[string]any{"modes": []string{"auth"}, "group_key": hex.EncodeToString(mx.OVPNKey.KeyBytes), "ignore_timestamp": true})},
 		Handle: []map[string]any{rx.H("echo")}})
 	// two routes told apart only by the server name in the ClientHello (one shared tls matcher instance each)
@@ -158,7 +163,7 @@ func (cp connPlan) stream() []byte {
 	}
 	s := hx.Stream(cp.Tag, cp.Size)
 	for i, b := range s {
-		if b >= 'A' && b <= 'L' || b == 0xFF {
+		if b >= 'A' && b <= 'M' || b == 0xFF {
 			s[i] = '.'
 		}
 	}
